@@ -71,21 +71,34 @@ fn main() {
         }
     }
     let args = Args { seed: a[2].parse().unwrap_or(1), count: a[3].parse().unwrap_or(100), kv };
-    // quiet panics we provoke on purpose
-    std::panic::set_hook(Box::new(|_| {}));
+    // quiet panics we provoke on purpose (the hook remembers the last one)
+    static LAST_PANIC: std::sync::Mutex<String> = std::sync::Mutex::new(String::new());
+    std::panic::set_hook(Box::new(|info| {
+        if let Ok(mut l) = LAST_PANIC.lock() {
+            *l = format!("{}", info).chars().take(300).collect();
+        }
+    }));
     let mut rep = vmon::Report::new();
-    match a[1].as_str() {
+    if !["c10", "c11", "c12", "c13", "c14", "c15", "c19"].contains(&a[1].as_str()) {
+        eprintln!("unknown property {}", a[1]);
+        std::process::exit(64);
+    }
+    // A panic that escapes the workload (one the workload did not provoke and catch itself) is an observation,
+    // not a harness failure: on the unchanged tree none occurs; with a modified library it means a library
+    // operation panicked or handed back a value the harness could not even index.
+    let r = std::panic::catch_unwind(std::panic::AssertUnwindSafe(|| match a[1].as_str() {
         "c10" => c10::run(&args, &mut rep),
         "c11" => c11::run(&args, &mut rep),
         "c12" => c12::run(&args, &mut rep),
         "c13" => c13::run(&args, &mut rep),
         "c14" => c14::run(&args, &mut rep),
         "c15" => c15::run(&args, &mut rep),
-        "c19" => c19::run(&args, &mut rep),
-        x => {
-            eprintln!("unknown property {}", x);
-            std::process::exit(64);
-        }
+        _ => c19::run(&args, &mut rep),
+    }));
+    if r.is_err() {
+        let what = LAST_PANIC.lock().map(|l| l.clone()).unwrap_or_default();
+        let what = what.replace(|c: char| c.is_ascii_digit(), "N");
+        rep.violation(&format!("{}:unexpected-panic", a[1].to_uppercase()), &format!("the workload was aborted by a panic nobody provoked: {}", what), "");
     }
     global_monitors(&mut rep, &a[1].to_uppercase());
     rep.finish();
